@@ -49,11 +49,16 @@ package certgen
 //@   cover maskBits(nb.Mask) == 32 && maskOnes(nb.Mask) == 20   #C11.cover-round-trip @C11
 
 // ---- C03: validity window of SSH certificates -------------------------------------------------------
+//@ pure func standardSSHExtension(k string) bool = k == "permit-X11-forwarding" || k == "permit-agent-forwarding" || k == "permit-port-forwarding" || k == "permit-pty" || k == "permit-user-rc"
 //@ func GenSSHCertFileString
 //@   requires strongKey(sshCryptoKey(sshParse(userPubKey)))                                               #C10.ssh-strong @C10
 //@   ensures err == nil ==> cert.Key == sshParse(userPubKey)                                               #C02.ssh-key @C02
 //@   ensures err == nil ==> len(cert.ValidPrincipals) == 1 && cert.ValidPrincipals[0] == username           #C02.ssh-principal @C02
 //@   ensures err == nil ==> cert.CertType == ssh.UserCert                                                 #C02.ssh-usercert @C02
+// extensions: the five standard ones, and nothing that is neither standard nor operator-configured
+//@   ensures err == nil ==> (forall k string :: standardSSHExtension(k) ==> hasKey(cert.Permissions.Extensions, k))                                                   #C02.ssh-standard-extensions @C02
+//@   ensures err == nil ==> (forall k string :: hasKey(cert.Permissions.Extensions, k) ==> standardSSHExtension(k) || (customExtensions != nil && hasKey(customExtensions, k)))   #C02.ssh-no-foreign-extensions @C02
+//@   loop 1 (extensions map[string]string) invariant (forall k string :: standardSSHExtension(k) ==> hasKey(extensions, k)) && (forall k string :: hasKey(extensions, k) ==> standardSSHExtension(k) || hasKey(customExtensions, k))   #C02.ssh-extension-loop @C02
 //@   ensures err == nil ==> ule(cert.ValidAfter, cert.ValidBefore)                                       #C03.ssh-no-wrap @C03
 //@   ensures err == nil && duration >= 0 ==> ule(cert.ValidBefore - cert.ValidAfter, uint64(duration / time.Second) + 1)  #C03.ssh-window @C03 %90
 //@   ensures err == nil && duration < 0 ==> cert.ValidBefore == cert.ValidAfter                          #C03.ssh-negative @C03
